@@ -160,7 +160,85 @@ func scnAcctBind(name string) *world.Scenario {
 	return s
 }
 
+// a leaf at its maximum, one of its allocations is marked as the victim of a required-node ask from another queue and
+// not released yet, a new ask arrives in the leaf (sixth seeding round, C02-6)
+func scnQMaxReqNode(name string) *world.Scenario {
+	conf := `partitions:
+  - name: default
+    queues:
+      - name: root
+        submitacl: "*"
+        queues:
+          - name: a
+            resources:
+              max: {memory: 4}
+          - name: b
+`
+	return &world.Scenario{
+		Name:    name,
+		Configs: []string{conf},
+		Reserve: true,
+		Nodes:   []world.NodeSpec{{ID: "n1", Cap: world.M(2)}, {ID: "n2", Cap: world.M(3)}},
+		Apps: []world.AppSpec{
+			{ID: "app1", Queue: "root.a", User: "u1", Groups: []string{"g1"}},
+			{ID: "app2", Queue: "root.b", User: "u2", Groups: []string{"g2"}},
+		},
+		Asks: []world.AskSpec{
+			{Key: "a1", App: "app1", Res: world.M(2), Create: 1001},
+			{Key: "a2", App: "app1", Res: world.M(2), Create: 1002},
+			{Key: "a3", App: "app1", Res: world.M(1), Create: 1003},
+			{Key: "r1", App: "app2", Res: world.M(1), Create: 1004, RequiredNode: "n1", Prio: 5},
+		},
+		Deny:     [][2]string{{"a1", "n2"}, {"a2", "n1"}},
+		Alphabet: []string{"SCHEDULE", "ASK", "RELEASE", "CONFIRM"},
+		Prefix:   []world.Op{op("NODE_ADD", "n1"), op("NODE_ADD", "n2"), op("APP_ADD", "app1"), op("APP_ADD", "app2"), op("ASK", "a1"), op("SCHEDULE"), op("ASK", "a2"), op("SCHEDULE")},
+	}
+}
+
+// two applications that never ran hold a reservation each, in two leaves below a parent that admits one application;
+// the nodes free up (sixth seeding round, C11-6)
+func scnMaxAppsReserve(name string) *world.Scenario {
+	conf := `partitions:
+  - name: default
+    queues:
+      - name: root
+        submitacl: "*"
+        queues:
+          - name: p
+            parent: true
+            maxapplications: 1
+            queues:
+              - name: a
+                maxapplications: 1
+              - name: b
+                maxapplications: 1
+          - name: other
+`
+	return &world.Scenario{
+		Name:    name,
+		Configs: []string{conf},
+		Reserve: true,
+		Nodes:   []world.NodeSpec{{ID: "n1", Cap: world.M(2)}, {ID: "n2", Cap: world.M(2)}},
+		Apps: []world.AppSpec{
+			{ID: "app1", Queue: "root.p.a", User: "u1", Groups: []string{"g1"}},
+			{ID: "app2", Queue: "root.p.b", User: "u2", Groups: []string{"g2"}},
+			{ID: "app3", Queue: "root.other", User: "u3", Groups: []string{"g3"}},
+		},
+		Asks: []world.AskSpec{
+			{Key: "f1", App: "app3", Res: world.M(2), Create: 1001},
+			{Key: "f2", App: "app3", Res: world.M(2), Create: 1002},
+			{Key: "a1", App: "app1", Res: world.M(2), Create: 1003},
+			{Key: "b1", App: "app2", Res: world.M(2), Create: 1004},
+		},
+		Alphabet: []string{"SCHEDULE", "ASK", "RELEASE", "APP_REMOVE"},
+		Prefix: []world.Op{op("NODE_ADD", "n1"), op("NODE_ADD", "n2"), op("APP_ADD", "app1"), op("APP_ADD", "app2"), op("APP_ADD", "app3"), op("ASK", "f1"), op("SCHEDULE"), op("ASK", "f2"), op("SCHEDULE"),
+			op("ASK", "a1"), op("SCHEDULE"), op("ASK", "b1"), op("SCHEDULE"), op("SCHEDULE")},
+	}
+}
+
 func init() {
+	mc.Register(&mc.ScenarioDef{Scn: scnQMaxReqNode("qmax-reqnode"), Monitors: []mc.Monitor{monC02()}})
+	mc.Register(&mc.ScenarioDef{Scn: scnMaxAppsReserve("maxapps-reserve"), Monitors: []mc.Monitor{monC11()}})
 	mc.Register(&mc.ScenarioDef{Scn: scnAcctBind("acct-bind"), Monitors: []mc.Monitor{monC03()}})
 	mc.Register(&mc.ScenarioDef{Scn: scnGangDrain("gang-cap-drain"), Monitors: []mc.Monitor{monC01()}})
 	mc.Register(&mc.ScenarioDef{Scn: scnGangSameNode("gang-si-same"), Monitors: []mc.Monitor{monC04()}})
